@@ -216,19 +216,40 @@ fn client(port: u16, id: usize, state: State, seed: u64, stop_after: Duration) -
             }
             let size = if huge { r.range(6_000_000, 12_000_000) } else { r.range(300_000, 1_000_000) } as usize;
             let v = crate::checks::c04::value_for(id as u64 + 1, size);
-            // the SET and several GETs of it go out in ONE write: this client must not send anything
-            // once the server may have begun to close (a request that arrives after the server's
-            // drain has ended resets the connection and tears the reply in flight; with separate
-            // writes a pre-empted client thread did that once on a loaded machine, see DESIGN 8)
+            // This client must not send anything once the server may have begun to close: a request
+            // that arrives after the server's drain has ended resets the connection and tears the
+            // reply in flight (with one write per request a pre-empted client thread did that once
+            // on a loaded machine, see DESIGN 8). Replies of ordinary size: SET and GETs go out in
+            // ONE write. Huge replies: SET and the first GET in one write, then, once +OK is here,
+            // the second GET; the server is by then inside the write of a reply that cannot
+            // complete before this client reads (6-12 MB against 32 KB of receive buffer), so the
+            // second GET sits unread in the server's socket while a reply is being written, and
+            // cannot be late however long this thread is held up
             let mut all = command(&[b"SET", &k, &v]);
             res.sent.push((k.clone(), Some(v.clone())));
             res.expected.push(b"+OK\r\n".to_vec());
-            for _ in 0..(if huge { r.range(1, 2) } else { r.range(1, 4) }) {
-                all.extend_from_slice(&command(&[b"GET", &k]));
+            let ngets = if huge { 2 } else { r.range(1, 4) };
+            let mut later: Vec<u8> = Vec::new();
+            for g in 0..ngets {
+                let dst = if huge && g > 0 { &mut later } else { &mut all };
+                dst.extend_from_slice(&command(&[b"GET", &k]));
                 res.sent.push((k.clone(), Some(v.clone())));
                 res.expected.push(encode(&RFrame::Bulk(v.clone())));
             }
             let _ = tx.write_all(&all);
+            if !later.is_empty() {
+                let d = Instant::now() + Duration::from_secs(20);
+                while rx.buf.len() < 5 && !rx.eof && rx.err.is_none() && Instant::now() < d {
+                    rx.poll();
+                }
+                if rx.buf.len() >= 5 {
+                    let _ = tx.write_all(&later);
+                } else {
+                    // the server ended the connection before it answered the SET: the second GET was never sent
+                    res.sent.pop();
+                    res.expected.pop();
+                }
+            }
             let d = Instant::now() + stop_after + Duration::from_millis(200);
             while Instant::now() < d && !rx.eof && rx.err.is_none() {
                 rx.poll();
